@@ -10,8 +10,8 @@ package main
 // every encoder entry point is called repeatedly on every variant.
 //
 // Correspondence (Run/RunC16.v): the encoder model on the rebuilt variants, entries
-// printed in c16Shuffled order; the indented root rule; Map.Json's post-processing of
-// json.Marshal's bytes; the Writer forms; the Maps string / file forms.
+// printed in shuffled order; the indented root rule; Map.Json / JsonIndent on top of
+// the encoder's bytes; the Writer forms; the Maps string / file forms.
 // Oracle (byte level, on the implementation only): one violation key per clause.
 
 import (
@@ -78,7 +78,23 @@ func (a c16Out) text() string {
 }
 
 func (a c16Out) xout() string {
-	return xoutBytes(Outcome{Panicked: a.Panicked, Err: a.Err, Ret: a.B})
+	if a.Panicked {
+		return "XPanicked"
+	}
+	if a.Err != nil {
+		return "(XFail " + errClass(a.Err) + ")"
+	}
+	return "(XBytes " + c16CoqStr(string(a.B)) + ")"
+}
+
+// c16CoqStr: like coqStr, but a long string is printed as an append of pieces: one literal of several
+// ten thousand characters makes coqc overflow its stack.
+func c16CoqStr(s string) string {
+	const piece = 3000
+	if len(s) <= piece {
+		return coqStr(s)
+	}
+	return "(app " + coqStr(s[:piece]) + " " + c16CoqStr(s[piece:]) + ")"
 }
 
 func c16Clip(s string, n int) string {
@@ -983,7 +999,7 @@ func c16MapCase(c *c16Ctx, r *Rng, o xOpts, m map[string]interface{}, root strin
 					if wf.raw || !ret.ok() {
 						retTerm = ret.xout()
 					}
-					c.add(fmt.Sprintf("CWriter %s %s %s %s", coqBool(wf.raw), base.xout(), coqStr(string(written)), retTerm),
+					c.add(fmt.Sprintf("CWriter %s %s %s %s", coqBool(wf.raw), base.xout(), c16CoqStr(string(written)), retTerm),
 						detail, ret.text()+" written "+c16Clip(string(written), 80), nontrivial)
 				}
 			}
@@ -1072,27 +1088,41 @@ func c16MapCase(c *c16Ctx, r *Rng, o xOpts, m map[string]interface{}, root strin
 			c.violate("anyxml-deterministic", "AnyXml returns different bytes for equal values", "AnyXml on a rebuilt copy", out2.text(), out.text())
 		}
 		if _, isList := v.([]interface{}); isList && c16HasBadAttr(o, v) {
-			// anyxml.go overwrites the member's encoding error with the result of writing the end tag and returns
-			// the partial output with a nil error (reported; Model/XmlEnc.v returns the error)
-			run.count("AnyXml on a list with an invalid attribute value: no model term (error swallowed by AnyXml, reported)")
-		} else {
-			run.count("AnyXml term")
-			c.add(fmt.Sprintf("CX (XAny %s %s %s %s %s %s)", o.coq(), r.c16CoqValShuffled(v), coqStr(rt), coqStr(et), coqBool(acc), out.xout()),
-				"AnyXml(v, "+rt+", "+et+")", out.text(), nontrivial)
+			run.count("AnyXml term on a list with an invalid attribute value (the member's error is returned, fix c7dba98)")
 		}
+		run.count("AnyXml term")
+		c.add(fmt.Sprintf("CX (XAny %s %s %s %s %s %s)", o.coq(), r.c16CoqValShuffled(v), coqStr(rt), coqStr(et), coqBool(acc), out.xout()),
+			"AnyXml(v, "+rt+", "+et+")", out.text(), nontrivial)
 	}
 	{
+		// Map.Json(safe) / JsonIndent(p, i, safe) against what json.Encoder writes under SetEscapeHTML(safe)
+		// (and json.Indent of it): the environment, called here directly
 		safe := r.chance(0.5)
 		v := variants[r.Intn(len(variants))]
-		var mar, out c16Out
-		if r.chance(0.5) {
-			mar = c16Call(func() ([]byte, error) { return json.Marshal(mxj.Map(v)) })
-			out = c16Call(func() ([]byte, error) { return mxj.Map(v).Json(safe) })
-		} else {
-			mar = c16Call(func() ([]byte, error) { return json.MarshalIndent(mxj.Map(v), ind[0], ind[1]) })
-			out = c16Call(func() ([]byte, error) { return mxj.Map(v).JsonIndent(ind[0], ind[1], safe) })
+		encoded := c16Call(func() ([]byte, error) {
+			var buf bytes.Buffer
+			enc := json.NewEncoder(&buf)
+			enc.SetEscapeHTML(safe)
+			err := enc.Encode(map[string]interface{}(v))
+			return buf.Bytes(), err
+		})
+		if !encoded.ok() {
+			encoded.B = nil
 		}
-		c.add(fmt.Sprintf("CJson %s %s %s", coqBool(safe), mar.xout(), out.xout()), "Json / JsonIndent against json.Marshal's bytes", out.text(), nontrivial)
+		if r.chance(0.5) {
+			out := c16Call(func() ([]byte, error) { return mxj.Map(v).Json(safe) })
+			c.add(fmt.Sprintf("CJson %s %s", encoded.xout(), out.xout()), fmt.Sprintf("Json(%v) against the encoder's bytes", safe), out.text(), nontrivial)
+		} else {
+			indIn := bytes.TrimSuffix(encoded.B, []byte("\n"))
+			indOut := c16Call(func() ([]byte, error) {
+				var buf bytes.Buffer
+				err := json.Indent(&buf, indIn, ind[0], ind[1])
+				return buf.Bytes(), err
+			})
+			out := c16Call(func() ([]byte, error) { return mxj.Map(v).JsonIndent(ind[0], ind[1], safe) })
+			c.add(fmt.Sprintf("CJsonI %s %s %s %s", encoded.xout(), c16CoqStr(string(indIn)), indOut.xout(), out.xout()),
+				fmt.Sprintf("JsonIndent(%q,%q,%v) against json.Indent of the encoder's bytes", ind[0], ind[1], safe), out.text(), nontrivial)
+		}
 	}
 	_ = indOut
 }
@@ -1281,7 +1311,7 @@ func c16MapsCase(c *c16Ctx, r *Rng, o xOpts, maps []map[string]interface{}) {
 		if p == nil {
 			return "None"
 		}
-		return "(Some " + coqStr(*p) + ")"
+		return "(Some " + c16CoqStr(*p) + ")"
 	}
 	// check a string form against the concatenation of the per-Map encodings
 	concatClause := func(key, name string, got c16Out, encs []c16Out) {
@@ -1323,7 +1353,7 @@ func c16MapsCase(c *c16Ctx, r *Rng, o xOpts, maps []map[string]interface{}) {
 		concatClause("maps-xmlstring-concat", "Maps.XmlString", xstr, xs)
 		fc, fe := fileOf(func() error { return mvs.XmlFile(path) })
 		fileClause("maps-xmlfile-eq-string", "Maps.XmlFile", fc, fe, xstr)
-		c.add(fmt.Sprintf("CMaps 0 false %s %s %s %s", coqOuts(xs), coqStr(string(xstr.B)), coqBool(xstr.Err != nil), coqOptStr(fc)),
+		c.add(fmt.Sprintf("CMaps 0 false %s %s %s %s %s", coqOuts(xs), coqOuts(xs), c16CoqStr(string(xstr.B)), coqBool(xstr.Err != nil), coqOptStr(fc)),
 			"Maps.XmlString / XmlFile", xstr.text(), len(maps) >= 2)
 
 		xis := per(func(mv mxj.Map) ([]byte, error) { return mv.XmlIndent(ind[0], ind[1]) })
@@ -1346,8 +1376,9 @@ func c16MapsCase(c *c16Ctx, r *Rng, o xOpts, maps []map[string]interface{}) {
 			fc, fe := fileOf(func() error { return mvs.JsonFile(path, args...) })
 			fileClause("maps-jsonfile-eq-string", "Maps.JsonFile", fc, fe, jstr)
 			if mode != "none" {
-				mar := per(func(mv mxj.Map) ([]byte, error) { return json.Marshal(mv) })
-				c.add(fmt.Sprintf("CMaps 1 %s %s %s %s %s", coqBool(safe), coqOuts(mar), coqStr(string(jstr.B)), coqBool(jstr.Err != nil), coqOptStr(fc)),
+				jsF := per(func(mv mxj.Map) ([]byte, error) { return mv.Json(false) })
+				jsT := per(func(mv mxj.Map) ([]byte, error) { return mv.Json(true) })
+				c.add(fmt.Sprintf("CMaps 1 %s %s %s %s %s %s", coqBool(safe), coqOuts(jsF), coqOuts(jsT), c16CoqStr(string(jstr.B)), coqBool(jstr.Err != nil), coqOptStr(fc)),
 					name+" / JsonFile", jstr.text(), len(maps) >= 2)
 			}
 
@@ -1377,8 +1408,9 @@ func c16MapsCase(c *c16Ctx, r *Rng, o xOpts, maps []map[string]interface{}) {
 			fc, fe = fileOf(func() error { return mvs.JsonFileIndent(path, ind[0], ind[1], args...) })
 			fileClause("maps-jsonfileindent-eq-string", "Maps.JsonFileIndent", fc, fe, jistr)
 			if mode == "true" || (mode == "false" && r.chance(0.5)) {
-				mar := per(func(mv mxj.Map) ([]byte, error) { return json.MarshalIndent(mv, ind[0], ind[1]) })
-				c.add(fmt.Sprintf("CMaps 2 %s %s %s %s %s", coqBool(safe), coqOuts(mar), coqStr(string(jistr.B)), coqBool(jistr.Err != nil), coqOptStr(fc)),
+				jiF := per(func(mv mxj.Map) ([]byte, error) { return mv.JsonIndent(ind[0], ind[1], false) })
+				jiT := per(func(mv mxj.Map) ([]byte, error) { return mv.JsonIndent(ind[0], ind[1], true) })
+				c.add(fmt.Sprintf("CMaps 2 %s %s %s %s %s %s", coqBool(safe), coqOuts(jiF), coqOuts(jiT), c16CoqStr(string(jistr.B)), coqBool(jistr.Err != nil), coqOptStr(fc)),
 					iname+" / JsonFileIndent", jistr.text(), len(maps) >= 2)
 			}
 		}
